@@ -312,6 +312,11 @@ func (s *Scenario) addRuntime(rng *rand.Rand, profile string) {
 	}
 	if rp.SecondDeploymentAt != 0 {
 		rt.Deployments = append(rt.Deployments, &registry.VersionInfo{Version: rtVersion2, ValidFrom: beacon.EpochTime(rp.SecondDeploymentAt)})
+		// The order of the list carries no meaning (validation sorts a copy): every other scenario
+		// lists the upcoming deployment first.
+		if s.Seed%2 == 1 {
+			rt.Deployments[0], rt.Deployments[1] = rt.Deployments[1], rt.Deployments[0]
+		}
 	}
 	rt.Genesis.StateRoot.Empty()
 	s.Runtime = rt
